@@ -177,9 +177,12 @@ def run_rules(ctx, res):
             root, names, chain = chain_names(st["init"])
             if ident_of(root) != fp:
                 continue
-            if "map" in names and "filter_map" not in names and "any" not in names and names[-1] != "len":
+            if "any" in names or names[-1:] == ["len"] or not ({"map", "filter_map"} & set(names)):
+                continue
+            texts = [x["lit"]["v"] for x in nodes(st["init"], "Lit") if x["lit"]["t"] == "str"] + [by_node[id(m_)].text for m_ in nodes(st["init"], "Macro") if id(m_) in by_node]
+            if any(".pop()" in x.replace(" ", "") for x in texts):
                 pops_let = (st, names, chain)
-            elif "filter_map" in names:
+            else:
                 ctor_let = (st, names, chain)
         # ---------------- K1 pops
         if pops_let is None:
@@ -265,8 +268,14 @@ def run_rules(ctx, res):
         res.floor("pop arms of the %s reduction renderer (skipped, nonterminal, terminal)" % shape.lower(), len(kinds & {"skipped", "nonterminal", "terminal"}), 3)
         # ---------------- K4 truncate
         trs = []
+        via_helper = None  # (helper fn, call node) when the tail template lives in a helper shared by the renderers
+        tail_fns = [fn["name"]]
+        for mc in nodes(fn["body"], "MethodCall"):
+            if ident_of(mc["recv"]) == "self" and mc["method"] in fns and mc["method"] != fn["name"] and any(t_.fn == mc["method"] and any(x.s == "truncate" for x in t_.tokens) for t_ in fmt):
+                via_helper = (fns[mc["method"]], mc)
+                tail_fns.append(mc["method"])
         for t in fmt:
-            if t.fn != fn["name"]:
+            if t.fn not in tail_fns:
                 continue
             tk = t.tokens
             for i in range(len(tk) - 3):
@@ -290,6 +299,16 @@ def run_rules(ctx, res):
             txt = " ".join(x.s for x in inner[:-1])
             last = inner[-1] if inner else None
             d = tpl.resolve_text(t, last.ph).replace(" ", "") if last is not None and last.k == "ph" else None
+            if d is not None and d.startswith("param:") and via_helper is not None and t.fn == via_helper[0]["name"]:
+                # the count is a parameter of the shared helper: take what this renderer passes for it
+                hf, mc = via_helper
+                pnames = [i_["pat"].get("name") for i_ in hf["inputs"] if "pat" in i_ and i_["pat"].get("k") == "PIdent"]
+                pn = d.split(":", 1)[1]
+                if pn in pnames and pnames.index(pn) < len(mc["args"]):
+                    arg = mc["args"][pnames.index(pn)]
+                    atxt = unparse(arg).replace(" ", "").lstrip("&")
+                    lets_r = {s_["pat"]["name"]: unparse(s_["init"]).replace(" ", "") for s_ in fn["body"]["stmts"] if s_["k"] == "Let" and s_["pat"].get("k") == "PIdent" and s_.get("init") is not None}
+                    d = "expr:" + lets_r.get(atxt, atxt)
             ok = d == "expr:%s.len()" % fp and inner[-2].s == "-" and re.match(r"^\w+ \. len \( \) -$", txt) is not None
             res.inst(TRUNC, "renderer|%s|truncate" % shape, t.where, True, "truncate(%s %s) with %s" % (txt, last.s if last else "", d))
             if not ok:
@@ -301,33 +320,43 @@ def run_rules(ctx, res):
         st, names, chain = ctor_let
         cwhere = "%s:%d" % (efile, st["line"])
         res.inst(CTOR, "renderer|%s|walk" % shape, cwhere, True, ".".join(names))
-        extra = [n for n in names if n not in KEEP_ORDER]
-        if extra or "enumerate" not in names or names.index("enumerate") > names.index("filter_map"):
-            res.violate(CTOR, "renderer|%s|walk" % shape, cwhere, "the constructor's fields must be listed front to back with their own positions (`iter().enumerate().filter_map(..)`, no `%s`); found `%s`" % (", ".join(extra) or "reordering", ".".join(names)))
-        clo = [c[2][0] for c in chain if c[0] == "call" and c[1] == "filter_map" and c[2]]
-        ms = nodes(clo[0]["body"], "Match") if clo and clo[0]["k"] == "Closure" else []
-        if not ms:
-            res.unanalysable(CTOR, "renderer|%s|ctor-arms" % shape, cwhere, "the constructor closure is not a match over the field")
-            continue
+        extra = [n for n in names if n not in KEEP_ORDER + ("filter",)]
+        sel = [n for n in names if n in ("filter_map", "filter", "map")]
+        if extra or "enumerate" not in names or not sel or names.index("enumerate") > names.index(sel[0]):
+            res.violate(CTOR, "renderer|%s|walk" % shape, cwhere, "the constructor's fields must be listed front to back with their own positions (`iter().enumerate()` then filter_map / filter+map, no `%s`); found `%s`" % (", ".join(extra) or "reordering", ".".join(names)))
+        # how `_` fields are left out: a None arm / else-None of a kind test in filter_map, or a `filter(is_used)` adaptor
+        clos = [c[2][0] for c in chain if c[0] == "call" and c[1] in ("filter_map", "filter", "map") and c[2] and c[2][0]["k"] == "Closure"]
+        skip_ok = False
+        skip_how = "?"
+        for c_ in chain:
+            if c_[0] == "call" and c_[1] == "filter" and c_[2]:
+                txt = unparse(c_[2][0]).replace(" ", "")
+                if re.search(r"\.is_used\(\)$", txt) and "!" not in txt:
+                    skip_ok, skip_how = True, "filter(is_used)"
+        for cl_ in clos:
+            for m_ in nodes(cl_["body"], "Match"):
+                kinds_ = {arm_kind(unparse(a_["pat"])): a_ for a_ in m_["arms"]}
+                if "skipped" in kinds_:
+                    ab = kinds_["skipped"]["body"]
+                    skip_ok = ab["k"] == "Path" and ab["path"]["segs"] == ["None"]
+                    skip_how = "match arm -> None"
+            for if_ in nodes(cl_["body"], "If"):
+                c0 = if_["cond"]
+                if c0["k"] == "LetCond" and arm_kind(unparse(c0["pat"])) in ("used", "nonterminal", "terminal") and if_.get("else") is not None:
+                    el_ = unblock(if_["else"])
+                    skip_ok = el_.get("k") == "Path" and el_["path"]["segs"] == ["None"]
+                    skip_how = "if let <used> .. else None"
+        res.inst(CTOR, "renderer|%s|ctor-arm|skipped" % shape, cwhere, True, "`_` fields left out by %s: %s" % (skip_how, skip_ok))
+        if not skip_ok:
+            res.violate(CTOR, "renderer|%s|ctor-arm|skipped" % shape, cwhere, "a `_` field must not appear in the constructed value: the field list must drop it by its kind (a `None` arm, `if let <used> .. else None`, or `filter(is_used)`); found %s" % skip_how)
+        fms = [m for cl_ in clos for m in nodes(cl_["body"], "Macro") if m["name"] == "format" and id(m) in by_node]
         n_used = 0
-        for a in ms[0]["arms"]:
-            ptxt = unparse(a["pat"])
-            kind = arm_kind(ptxt)
-            key = "renderer|%s|ctor-arm|%s" % (shape, kind)
-            awhere = "%s:%d" % (efile, a["line"])
-            if kind == "skipped":
-                ok = a["body"]["k"] == "Path" and a["body"]["path"]["segs"] == ["None"]
-                res.inst(CTOR, key, awhere, True, "omitted: %s" % ok)
-                if not ok:
-                    res.violate(CTOR, key, awhere, "a `_` field must not appear in the constructed value (arm must be `None`)")
-                continue
-            fm = [m for m in nodes(a["body"], "Macro") if m["name"] == "format"]
-            conds = nodes(a["body"], "If") + nodes(a["body"], "Match")
-            if len(fm) != 1 or conds or id(fm[0]) not in by_node:
-                res.violate(CTOR, key + "|conditional", awhere, "a used field must be listed through one unconditional template")
-                continue
+        if len(fms) != 1:
+            res.violate(CTOR, "renderer|%s|ctor-arm|used|conditional" % shape, cwhere, "a used field must be listed through exactly one template (found %d)" % len(fms))
+        for fm0 in fms[:1]:
+            key = "renderer|%s|ctor-arm|used" % shape
             n_used += 1
-            t = by_node[id(fm[0])]
+            t = by_node[id(fm0)]
             toks = t.tokens
             if shape == "Named":
                 okshape = len(toks) == 4 and toks[1].s == ":" and toks[3].s == ","
